@@ -136,7 +136,7 @@ Theorem C08_histories_total : forall ops v it, dinv v -> is_response (pp_packet 
 Proof. exact hops2_tol_total. Qed.
 Print Assumptions C08_histories_total.
 
-(** histories that also delete non-OPT records and change their TTLs through a cursor put on the record with the iterator's own
+(** histories that also delete non-OPT records and change their TTLs and owner names through a cursor put on the record with the iterator's own
     set_offset and recompute (Proofs/CursorHist.v): every operation applicable where it is applied ([ok_along]) *)
 Theorem C08_histories_with_cursor : forall ops v it s', dinv v -> is_response (pp_packet v) -> it_section it <> SQuestion ->
   ok_along ops (v, it) -> run_hops3 ops (v, it) = (s', Ok tt) -> dinv (fst s') /\ snd s' = it /\ is_response (pp_packet (fst s')).
@@ -148,12 +148,14 @@ Example C08_cursor_history_vocabulary :
                           | H3Base o => run_hop2 o
                           | H3Delete off => with_cursor off m_delete
                           | H3SetTtl off t => with_cursor off (m_set_ttl t)
+                          | H3SetName off nm => with_cursor off (m_set_raw_name nm)
                           end) /\
   (forall off m s, with_cursor off m s = let '(s1, r) := ((m_set_offset off ;;- m_recompute_rr) ;;- m) s in ((fst s1, snd s), r)) /\
   (forall v o, hop3_ok_at v o = match o with
                                 | H3Base o => hop2_ok o
                                 | H3Delete off => record_starts v off
                                 | H3SetTtl off t => record_starts v off /\ (t < 4294967296)%N
+                                | H3SetName off nm => record_starts v off /\ bytes_ok nm
                                 end) /\
   (forall v off, record_starts v off <->
      exists qls qt lA lN lR r x, reading (pp_packet v) qls qt lA lN lR /\ In (r, x) (lA ++ lN ++ lR) /\ is_opt r = false /\ rv_off r = off) /\
@@ -174,8 +176,14 @@ Example C08_cursor_history_runs :
   | Ok v => let '(s, r) := run_hops3 [H3Base H2Recompute; H3Delete 36; H3SetTtl 19 77%N; H3Delete 19] (v, c08_cursor) in
             (pp_packet (fst s), pp_offset_answers (fst s), r)
   | _ => ([], None, Err InvalidPacket)
-  end = ([0;7; 129;128; 0;1; 0;0; 0;0; 0;0;  1;97;0; 0;1; 0;1]%N, None, Ok tt).
-Proof. split; vm_compute; reflexivity. Qed.
+  end = ([0;7; 129;128; 0;1; 0;0; 0;0; 0;0;  1;97;0; 0;1; 0;1]%N, None, Ok tt) /\
+  (* rename the first answer to bc.d (three bytes longer; the name given may be followed by anything), delete the second, set a TTL *)
+  match parse c08_two_answers with
+  | Ok v => let '(s, r) := run_hops3 [H3Base H2Recompute; H3SetName 19 [2;98;99;1;100;0;9;9]%N; H3Delete 39; H3SetTtl 19 77%N] (v, c08_cursor) in
+            (pp_packet (fst s), pp_offset_answers (fst s), r)
+  | _ => ([], None, Err InvalidPacket)
+  end = ([0;7; 129;128; 0;1; 0;1; 0;0; 0;0;  1;97;0; 0;1; 0;1;  2;98;99;1;100;0; 0;1; 0;1; 0;0;0;77; 0;4; 1;2;3;4]%N, Some 19, Ok tt).
+Proof. split; [|split]; vm_compute; reflexivity. Qed.
 
 Example C08_tolerant_run_means : forall o ops s, run_hops2_tol (o :: ops) s =
   match run_hop2 o s with (s1, Ok _) => run_hops2_tol ops s1 | (s1, Err _) => run_hops2_tol ops s1 | (s1, Panic x) => (s1, Panic x) end.
